@@ -28,7 +28,9 @@ def run(c):
         conc = dict(workload="disjoint", txns=(2 if empty else 2 + (vi % 2)), keys=keys, slot=slot, sched=sched, max_step=8, empty=empty)
         if vi >= 5:   # one writer adds a key, another adds eight neighbours (splits): the later committer merges into a changed structure
             conc.update(workload="split", txns=2 + (vi % 2), max_step=12)
-        traces, _ = _conc.run_conc(c, binp, "d%d%s" % (vi, sched), c.pick(6, 60), conc, timeout=3000)
+        # the three-writer gate variant gets more histories: commits that need two refetch-and-merge rounds are rare
+        nh = c.pick(25, 100) if (vi == 1) else c.pick(6, 60)
+        traces, _ = _conc.run_conc(c, binp, "d%d%s" % (vi, sched), nh, conc, timeout=3000)
         hists, outs = [], []
         for n, h, evs in traces:
             hh, out = conclib.history_of(evs, require_all=True)
